@@ -215,18 +215,41 @@ def run(ck):
     # ---------------- R4 ----------------
     ov = lib.single(prog, DSB + "overflow")
     res = [e for e in ov.calls(lambda e: (e.get("callee") or "") == DSB + "reserve")]
-    tests = [b for b in ov.blocks.values() if b.term and b.term.get("k") == "if" and b.term.get("cmp") == "<" and strip_tmpl((b.term.get("rhs") or {}).get("f") or "") == DSB + "maxSize_"]
-    ok = bool(res) and bool(tests) and all(any(cfg.edge_dominates(ov, b.id, 0, e) for b in tests) for e in res)
-    sz = [dd for dd in ov.events("decl") if tests and dd.get("var") == (tests[0].term.get("lhs") or {}).get("v")]
-    ok = ok and bool(sz) and strip_tmpl(sz[0].get("icall") or "") == "std::vector::size"
+    # reserve() is reached only on an edge that knows data_.size() < maxSize_ (size compared directly or through a local; `<` taken or
+    # `>=` not taken)
+    szv = {dd["var"] for dd in ov.events("decl") if dd.get("var") and strip_tmpl(dd.get("icall") or "") == "std::vector::size"}
+    is_size = lambda r_: r_.get("v") in szv or "data_.size()" in (r_.get("t") or "")
+    is_cap = lambda r_: strip_tmpl(r_.get("f") or "") == DSB + "maxSize_"
+    under = lib.relation_edges(ov, is_size, is_cap, ("<",))
+    ok = bool(res) and bool(under) and all(any(cfg.edge_dominates(ov, bid, k_, e) for bid, k_ in under) for e in res)
     ck.ob("C05-R4", "DynamicStreamBuf::overflow/grows-under-cap", ok, ov.loc, ov, "reserve() only on the data_.size() < maxSize_ edge")
     rv = lib.single(prog, DSB + "reserve")
-    clamp = [b for b in rv.blocks.values() if b.term and b.term.get("k") == "if" and b.term.get("cmp") == ">" and strip_tmpl((b.term.get("rhs") or {}).get("f") or "") == DSB + "maxSize_"]
-    asg = [a for a in rv.events("assign") if a["lhs"].get("v") == rv.params[0]["name"] and strip_tmpl(a["rhs"].get("f") or "") == DSB + "maxSize_"]
     rz = [e for e in rv.calls(lambda e: e.base_callee() == "std::vector::resize")]
-    ok = len(clamp) == 1 and len(asg) == 1 and cfg.edge_dominates(rv, clamp[0].id, 0, asg[0]) and len(rz) == 1 and rz[0]["args"][0].get("v") == rv.params[0]["name"] \
-        and clamp[0].id in cfg.dominators(rv).get(rz[0].block, ())
-    ck.ob("C05-R4", "DynamicStreamBuf::reserve/clamps", ok, rv.loc, rv, "size is clamped to maxSize_ before data_.resize(size)")
+    pname = rv.params[0]["name"]
+    ok = len(rz) == 1
+    how = "?"
+    if ok:
+        av = rz[0]["args"][0].get("v")
+        import re as _re
+        M = r"(?:this->)?maxSize_"
+        if av == pname:
+            # the parameter itself, overwritten with the cap on the edge where it exceeds it
+            over = lib.relation_edges(rv, lambda r_: r_.get("v") == pname, is_cap, (">", ">="))
+            asg = [a for a in rv.events("assign") if a["lhs"].get("v") == pname and strip_tmpl(a["rhs"].get("f") or "") == DSB + "maxSize_"]
+            dom_ = cfg.dominators(rv)
+            ok = len(asg) == 1 and any(cfg.edge_dominates(rv, bid, k_, asg[0]) for bid, k_ in over) and any(bid in dom_.get(rz[0].block, ()) for bid, _k in over)
+            how = "if (size > maxSize_) size = maxSize_"
+        else:
+            # a local computed as the smaller of the two: `(size > max) ? max : size`, `(size < max) ? size : max`, std::min(size, max)
+            dv = [dd for dd in rv.events("decl") if dd.get("var") == av]
+            t_ = _re.sub(r"\s+", " ", ((dv[0].get("init") or {}).get("t") or "")) if dv else ""
+            P_ = _re.escape(pname)
+            pats = [r"^\(?\s*%s\s*>=?\s*%s\s*\)?\s*\?\s*%s\s*:\s*%s$" % (P_, M, M, P_), r"^\(?\s*%s\s*<=?\s*%s\s*\)?\s*\?\s*%s\s*:\s*%s$" % (M, P_, M, P_),
+                    r"^\(?\s*%s\s*<=?\s*%s\s*\)?\s*\?\s*%s\s*:\s*%s$" % (P_, M, P_, M), r"^\(?\s*%s\s*>=?\s*%s\s*\)?\s*\?\s*%s\s*:\s*%s$" % (M, P_, P_, M),
+                    r"^std::min(<[^>]*>)?\(\s*%s\s*,\s*%s\s*\)$" % (P_, M), r"^std::min(<[^>]*>)?\(\s*%s\s*,\s*%s\s*\)$" % (M, P_)]
+            ok = bool(dv) and any(_re.match(p_, t_) for p_ in pats) and not [a for a in rv.events("assign") if a["lhs"].get("v") == av]
+            how = t_
+    ck.ob("C05-R4", "DynamicStreamBuf::reserve/clamps", ok, rv.loc, rv, "size is clamped to maxSize_ before data_.resize(size)" + (" [%s]" % how if ok else ""))
     # the configured cap reaches every buffer a response is serialised into: constructors of ResponseWriter (incl. the copy made by
     # clone(), which the router hands to every route handler) and the stream created by stream()
     nb = 0
